@@ -579,6 +579,7 @@ func run(id, tier, only string, workers int, trace bool, replayFile, solver stri
 	exit := 0
 	nViol := 0
 	printedKnown := map[string]bool{}
+	os.RemoveAll(filepath.Join(verifDir, "replay", id))
 	os.MkdirAll(filepath.Join(verifDir, "replay", id), 0755)
 	for _, vd := range verdicts {
 		if vd.status != "reproduced" {
